@@ -81,6 +81,11 @@ pub open spec fn dot(a: Seq<FS>, b: Seq<FS>, n: nat) -> FS decreases n {
 pub open spec fn msm(bases: Seq<G1Affine>, s: Seq<FS>, n: nat) -> FS { dot(g1views(bases), s, n) }
 pub open spec fn f_pow(x: FS, n: nat) -> FS decreases n { if n == 0 { f_one() } else { f_mul(f_pow(x, (n - 1) as nat), x) } }
 
+// sum_{i<n} c[i] * x^i
+pub open spec fn peval(c: Seq<FS>, x: FS, n: nat) -> FS decreases n {
+    if n == 0 { f_zero() } else { f_add(peval(c, x, (n - 1) as nat), f_mul(c[n - 1], f_pow(x, (n - 1) as nat))) }
+}
+
 // RNG: a stream identified by `id`; `pos` values have been consumed.  Everything drawn is a
 // function of (id, position) -- i.e. the only assumption is that the generator is a deterministic stream.
 // `present` is false for an OptionalRng wrapping None: every draw from it panics (= diverges), so a draw that returns implies `present`.
